@@ -47,7 +47,7 @@ SHARED_INPLACE = {"file_path"}
 INHERITED = {"_base_dtype": ("fmd.row_groups", "origin")}
 PRESERVED_CTX = ["pandas_nulls", "fn", "open", "_given_dtypes"]
 PRESERVED_FMD = ["schema", "key_value_metadata", "created_by", "version"]
-PLUMBING = {"__init__", "__getstate__", "__setstate__", "_parse_header", "__getitem__"}
+PLUMBING = {"__init__", "__getstate__", "__setstate__", "_parse_header", "__getitem__", "__copy__", "__deepcopy__"}
 LIST_MUTATORS = {"append", "extend", "insert", "remove", "pop", "sort", "clear", "reverse"}
 THRIFT_DYNAMIC_CARRY = {"__getitem__": "Keep", "pickle": "Reset", "copy": "Keep", "deepcopy": "Keep"}
 
@@ -664,7 +664,7 @@ def analyse(repo):
             for t in n.targets:
                 if isinstance(t, ast.Name):
                     class_defaults[t.id] = n.value
-    for bad in ("__copy__", "__deepcopy__", "__reduce__", "__reduce_ex__", "__getattr__", "__getattribute__", "__setattr__", "__slots__"):
+    for bad in ("__reduce__", "__reduce_ex__", "__getattr__", "__getattribute__", "__setattr__", "__slots__"):
         if bad in methods or bad in class_defaults:
             raise TranslatorError("ParquetFile defines %s" % bad)
     for req in ("__init__", "_set_attrs", "__getitem__", "__getstate__", "__setstate__"):
@@ -863,7 +863,18 @@ def analyse(repo):
     shares_fmd = mapping.get("fmd") == ("self", "fmd")
     if any(not nrm for _, _, nrm in gs.info.fmd_writes):
         raise TranslatorError("__getstate__ writes the metadata object: %r" % gs.info.fmd_writes)
+    copy_via = copy_protocol(methods)           # how copy.copy / copy.deepcopy derive a handle: {"copy": "getstate"|"getitem", "deepcopy": "getstate"|"pickle"}
     for kind in ("pickle", "copy", "deepcopy"):
+        if kind == "copy" and copy_via["copy"] == "getitem":
+            # __copy__ = `return self[...]`: the copy is derived exactly like a selection
+            g = dict(derivs[0])
+            g = {"name": "copy", "writes": list(g["writes"]), "pols": dict(g["pols"]), "default": g["default"]}
+            derivs.append(g)
+            continue
+        if kind == "deepcopy" and copy_via["deepcopy"] == "pickle":
+            # __deepcopy__ = __getstate__, the metadata through pickle.loads(pickle.dumps(.)), __setstate__: derived like a pickled handle
+            derivation("deepcopy", gs, mapping, allf, "pickle", set())
+            continue
         # copy.copy(pf) hands state["fmd"] on as it is: when that is the parent's own object, an edit through either handle
         # later writes the other's metadata behind its back - recorded as the derivation not preserving the fmd fields
         shared = {"fmd." + f_ for f_ in PRESERVED_FMD} | {"fmd.shared_object"} if (kind == "copy" and shares_fmd) else set()
@@ -946,11 +957,52 @@ def analyse(repo):
             if any(f == fname for f, _ in I[mname].external):
                 failed.append({"name": "%s!fails-in-%s" % (mname, fname), "writes": sorted(set(w) | ({"origin"} if "fmd.row_groups" in w else set())),
                                "pols": {a: "Keep" for a in all_attrs}, "default": "Keep"})
-    inv = {"ctx": ctx, "memos": all_attrs, "lazy": lazy, "fmd_memos": fmd_memos, "cached_property": cached,
+    obs_writes, obs_where = observer_writes(repo, tree, methods, set(PLUMBING) | set(mutator_names) | {"_set_attrs", "_read_partitions"})
+    inv = {"obs_writes": obs_writes, "obs_where": {"%s/%s" % k: list(v) for k, v in obs_where.items()},
+           "ctx": ctx, "memos": all_attrs, "lazy": lazy, "fmd_memos": fmd_memos, "cached_property": cached,
            "reads": reads_graph, "ground": ground, "derivs": derivs, "mutators": mutators + failed,
            "preserved": ["origin"] + ["ctx." + c for c in PRESERVED_CTX] + ["fmd." + f for f in PRESERVED_FMD],
            "known_attrs": sorted(set(all_attrs) | set(ctx) | {"fmd"})}
     return inv
+
+
+def copy_protocol(methods):
+    """which derivation copy.copy / copy.deepcopy amount to; unknown shapes of __copy__ / __deepcopy__ -> fail closed"""
+    out = {"copy": "getstate", "deepcopy": "getstate"}
+    if "__copy__" in methods:
+        body = [st for st in methods["__copy__"].body if not (isinstance(st, ast.Expr) and isinstance(st.value, ast.Constant))]
+        ok = (len(body) == 1 and isinstance(body[0], ast.Return) and isinstance(body[0].value, ast.Subscript)
+              and isinstance(body[0].value.value, ast.Name) and body[0].value.value.id == "self" and isinstance(body[0].value.slice, ast.Slice))
+        if not ok:
+            raise TranslatorError("__copy__ is not `return self[<slice>]`")
+        out["copy"] = "getitem"
+    if "__deepcopy__" in methods:
+        fn = methods["__deepcopy__"]
+        calls, seen_get, seen_set, seen_rt = set(), False, False, False
+        for n in ast.walk(fn):
+            if isinstance(n, ast.Call):
+                nm = n.func.attr if isinstance(n.func, ast.Attribute) else getattr(n.func, "id", None)
+                calls.add(nm)
+                if nm == "__getstate__" and isinstance(n.func.value, ast.Name) and n.func.value.id == "self":
+                    seen_get = True
+                if nm == "__setstate__":
+                    seen_set = True
+                if nm == "loads" and n.args and isinstance(n.args[0], ast.Call) and getattr(n.args[0].func, "attr", None) == "dumps":
+                    seen_rt = True
+                if nm == "pop" and not (n.args and _const(n.args[0]) == "fmd"):
+                    raise TranslatorError("__deepcopy__ removes a state entry other than fmd")
+            elif isinstance(n, (ast.Assign, ast.AugAssign)):
+                for t in (n.targets if isinstance(n, ast.Assign) else [n.target]):
+                    if isinstance(t, ast.Subscript) and _const(t.slice) != "fmd":
+                        raise TranslatorError("__deepcopy__ edits a state entry other than fmd")
+                    if isinstance(t, ast.Attribute):
+                        raise TranslatorError("__deepcopy__ assigns attributes")
+            elif isinstance(n, ast.Delete):
+                raise TranslatorError("__deepcopy__ deletes")
+        if not (seen_get and seen_set and seen_rt) or not calls <= {"__getstate__", "__setstate__", "pop", "deepcopy", "loads", "dumps", "__new__", "dict", "type"}:
+            raise TranslatorError("__deepcopy__ is not getstate / pickle round trip of fmd / setstate: calls %s" % sorted(c for c in calls if c))
+        out["deepcopy"] = "pickle"
+    return out
 
 
 def failure_writes(fn):
@@ -1007,6 +1059,243 @@ def failure_writes(fn):
     return sorted(set(out))
 
 
+
+# -----------------------------------------------------------------------------------------------
+# observers must not write: in-place mutation of objects an observer obtained from the handle
+
+MUT_METHODS = {"append", "extend", "insert", "remove", "pop", "clear", "sort", "reverse", "update", "setdefault", "add", "discard",
+               "popitem", "__setitem__", "__delitem__", "fill", "resize", "put", "itemset", "setflags"}
+FRESH_FUNCS = {"list", "sorted", "tuple", "reversed", "set", "dict", "enumerate", "zip", "iter", "frozenset", "OrderedDict", "copy"}
+FRESH_METHODS = {"copy", "items", "values", "keys"}
+ELEM_METHODS = {"get"}
+
+
+class WriteScan:
+    """one function: which handle attributes (or handle-reachable parameters) does it mutate in place?
+    taint of a value = set of (attribute, level): 'obj' the very object the handle holds, 'elem' a part of it,
+    'fresh' a new container whose items are parts of it (mutating the container is fine, mutating an item is not)"""
+
+    def __init__(self, fn, handle, obj_params=(), ret_taint=None):
+        self.fn, self.handle, self.ret = fn, handle, ret_taint or {}
+        self.t = {p: {(p, "obj")} for p in obj_params}
+        self.hits = []          # (attribute, line, what)
+        self.returns = set()
+        self.sub_memos = set()
+        for _ in range(2):      # two passes: taints assigned later in a loop body reach earlier statements
+            self.hits = []
+            for st in fn.body:
+                self.stmt(st)
+
+    @staticmethod
+    def lvl(t, f):
+        return {(a, f(l)) for a, l in t}
+
+    def ev(self, n):
+        if n is None:
+            return set()
+        if isinstance(n, ast.Attribute):
+            if isinstance(n.value, ast.Name) and n.value.id == self.handle:
+                if n.attr in self.ret:
+                    return set(self.ret[n.attr])
+                return {(n.attr, "obj")}
+            return self.lvl(self.ev(n.value), lambda l: "elem")
+        if isinstance(n, ast.Subscript):
+            b = self.ev(n.value)
+            if isinstance(n.slice, ast.Slice):
+                return self.lvl(b, lambda l: "fresh")
+            return self.lvl(b, lambda l: "elem")
+        if isinstance(n, ast.Name):
+            return set(self.t.get(n.id, ()))
+        if isinstance(n, ast.Call):
+            f = n.func
+            args = list(n.args) + [k.value for k in n.keywords]
+            self.scan_call(n)
+            if isinstance(f, ast.Name) and f.id in FRESH_FUNCS:
+                return self.lvl(set().union(*[self.ev(a) for a in args]) if args else set(), lambda l: "fresh")
+            if isinstance(f, ast.Attribute):
+                if isinstance(f.value, ast.Name) and f.value.id == self.handle:
+                    for a in args:
+                        self.ev(a)
+                    return set(self.ret.get(f.attr, ()))
+                if isinstance(f.value, ast.Name) and f.value.id == "copy" and f.attr == "copy":
+                    return self.lvl(set().union(*[self.ev(a) for a in args]) if args else set(), lambda l: "fresh")
+                if f.attr in FRESH_METHODS:
+                    return self.lvl(self.ev(f.value), lambda l: "fresh")
+                if f.attr in ELEM_METHODS or f.attr in ("pop", "setdefault"):
+                    return self.lvl(self.ev(f.value), lambda l: "elem")
+            for a in args:
+                self.ev(a)
+            if isinstance(f, ast.Attribute):
+                self.ev(f.value)
+            return set()
+        if isinstance(n, (ast.ListComp, ast.SetComp, ast.GeneratorExp, ast.DictComp)):
+            for g in n.generators:
+                ti = self.lvl(self.ev(g.iter), lambda l: "elem")
+                for x in ast.walk(g.target):
+                    if isinstance(x, ast.Name):
+                        self.t.setdefault(x.id, set()).update(ti)
+                for c in g.ifs:
+                    self.ev(c)
+            if isinstance(n, ast.DictComp):
+                self.ev(n.key)                      # (keys are hashable, hence immutable: only the values can alias)
+            inner = self.ev(n.value) if isinstance(n, ast.DictComp) else self.ev(n.elt)
+            return self.lvl(inner, lambda l: "fresh")
+        if isinstance(n, (ast.Tuple, ast.List, ast.Set)):
+            return self.lvl(set().union(*[self.ev(e) for e in n.elts]) if n.elts else set(), lambda l: "fresh")
+        if isinstance(n, ast.Dict):
+            return self.lvl(set().union(*[self.ev(e) for e in n.values if e is not None]) if n.values else set(), lambda l: "fresh")
+        if isinstance(n, ast.IfExp):
+            self.ev(n.test)
+            return self.ev(n.body) | self.ev(n.orelse)
+        if isinstance(n, ast.BoolOp):
+            return set().union(*[self.ev(e) for e in n.values])
+        if isinstance(n, ast.Starred):
+            return self.ev(n.value)
+        if isinstance(n, ast.NamedExpr):
+            v = self.ev(n.value)
+            self.t.setdefault(n.target.id, set()).update(v)
+            return v
+        for ch in ast.iter_child_nodes(n):
+            if isinstance(ch, ast.expr):
+                self.ev(ch)
+        return set()
+
+    def guarded_memo(self, local, key):
+        for n in ast.walk(self.fn):
+            if isinstance(n, ast.Call) and getattr(n.func, "id", None) == "hasattr" and len(n.args) == 2 and isinstance(n.args[0], ast.Name) \
+                    and n.args[0].id == local and _const(n.args[1]) == key:
+                return True
+            if isinstance(n, ast.Compare) and isinstance(n.left, ast.Subscript) and isinstance(n.left.value, ast.Name) and n.left.value.id == local \
+                    and _const(n.left.slice) == key and len(n.ops) == 1 and isinstance(n.ops[0], ast.Is):
+                return True
+        return False
+
+    def hit(self, taint, node, what):
+        for a, l in sorted(taint):
+            if l in ("obj", "elem"):
+                self.hits.append((a, getattr(node, "lineno", 0), what))
+
+    def scan_call(self, n):
+        f = n.func
+        if isinstance(f, ast.Attribute) and f.attr in MUT_METHODS:
+            if isinstance(f.value, ast.Name) and f.value.id == self.handle:
+                return
+            self.hit(self.ev(f.value), n, "." + f.attr + "()")
+
+    def store(self, target, node):
+        if isinstance(target, (ast.Tuple, ast.List)):
+            for e in target.elts:
+                self.store(e, node)
+        elif isinstance(target, ast.Starred):
+            self.store(target.value, node)
+        elif isinstance(target, (ast.Subscript, ast.Attribute)):
+            if isinstance(target, ast.Attribute) and isinstance(target.value, ast.Name) and target.value.id == self.handle:
+                return          # handle.attr = ...: an attribute assignment (memo fill / reset), the inventory's business
+            if isinstance(target, ast.Subscript) and isinstance(_const(target.slice), str) and isinstance(target.value, ast.Name) \
+                    and self.guarded_memo(target.value.id, _const(target.slice)):
+                # x["name"] = ... under `if not hasattr(x, "name")` / `x["name"] is None`: a memo FIELD filled on a struct reached
+                # from the handle (the converted statistics of a column chunk): a function of that struct and of the schema
+                self.sub_memos.add(_const(target.slice))
+                return
+            self.hit(self.ev(target.value), node, "item/attribute assignment")
+
+    def bind(self, target, tv, elemwise=False):
+        if isinstance(target, ast.Name):
+            self.t.setdefault(target.id, set()).update(tv)
+        elif isinstance(target, (ast.Tuple, ast.List)):
+            for e in target.elts:
+                self.bind(e, self.lvl(tv, lambda l: "elem"))
+        elif isinstance(target, ast.Starred):
+            self.bind(target.value, tv)
+
+    def stmt(self, st):
+        if isinstance(st, ast.Assign):
+            tv = self.ev(st.value)
+            for t in st.targets:
+                self.store(t, st)
+                self.bind(t, tv)
+        elif isinstance(st, ast.AugAssign):
+            self.ev(st.value)
+            if isinstance(st.target, ast.Name):
+                self.hit(self.ev(st.target), st, "augmented assignment (in place for lists/arrays)")
+            else:
+                self.store(st.target, st)
+        elif isinstance(st, ast.AnnAssign):
+            if st.value is not None:
+                self.bind(st.target, self.ev(st.value))
+        elif isinstance(st, ast.Expr):
+            self.ev(st.value)
+        elif isinstance(st, ast.Return):
+            if st.value is not None:
+                self.returns |= self.ev(st.value)
+        elif isinstance(st, ast.Delete):
+            for t in st.targets:
+                if isinstance(t, (ast.Subscript, ast.Attribute)) and not (isinstance(t.value, ast.Name) and t.value.id == self.handle and isinstance(t, ast.Attribute)):
+                    self.hit(self.ev(t.value), st, "del")
+        elif isinstance(st, ast.If) or isinstance(st, ast.While):
+            self.ev(st.test)
+            for s_ in st.body + st.orelse:
+                self.stmt(s_)
+        elif isinstance(st, (ast.For, ast.AsyncFor)):
+            self.bind(st.target, self.lvl(self.ev(st.iter), lambda l: "elem"))
+            for s_ in st.body + st.orelse:
+                self.stmt(s_)
+        elif isinstance(st, (ast.With, ast.AsyncWith)):
+            for it in st.items:
+                self.ev(it.context_expr)
+            for s_ in st.body:
+                self.stmt(s_)
+        elif isinstance(st, ast.Try):
+            for s_ in st.body + [x for h in st.handlers for x in h.body] + st.orelse + st.finalbody:
+                self.stmt(s_)
+        elif isinstance(st, (ast.Raise, ast.Assert)):
+            for ch in ast.iter_child_nodes(st):
+                if isinstance(ch, ast.expr):
+                    self.ev(ch)
+        elif isinstance(st, (ast.FunctionDef, ast.AsyncFunctionDef)):
+            for s_ in st.body:       # nested helper: scanned with the same environment
+                self.stmt(s_)
+
+
+HANDLE_PARAMS = {"pf", "obj"}
+OBJ_PARAMS = {"rg", "cats", "schema_helper", "schema", "partition_meta", "categories", "helper", "se", "fmd"}
+
+
+def observer_writes(repo, tree, methods, not_observers):
+    """{observer name: sorted list of handle attributes / handle-reachable parameters it mutates in place}"""
+    ret = {}
+    for _ in range(2):
+        for name, fn in methods.items():
+            ws = WriteScan(fn, "self", (), ret)
+            ret[name] = {(a, l) for a, l in ws.returns}
+    out, where = {}, {}
+    for name, fn in methods.items():
+        if name in not_observers:
+            continue
+        ws = WriteScan(fn, "self", (), ret)
+        out[name] = sorted({a for a, _, _ in ws.hits})
+        where.update({(name, a): (ln, w) for a, ln, w in ws.hits})
+    mods = [("api", tree)]
+    cpath = os.path.join(repo, "fastparquet", "core.py")
+    if os.path.exists(cpath):
+        mods.append(("core", ast.parse(open(cpath).read())))
+    for mod, tr in mods:
+        for fn in tr.body:
+            if not isinstance(fn, ast.FunctionDef):
+                continue
+            params = [a.arg for a in fn.args.args + fn.args.kwonlyargs]
+            if not params:
+                continue
+            handle = params[0] if params[0] in HANDLE_PARAMS else "\0"
+            objs = [p for p in params if p in OBJ_PARAMS]
+            if handle == "\0" and not objs:
+                continue
+            ws = WriteScan(fn, handle, objs, ret if handle != "\0" else {})
+            nm = "%s.%s" % (mod, fn.name)
+            out[nm] = sorted({a for a, _, _ in ws.hits})
+            where.update({(nm, a): (ln, w) for a, ln, w in ws.hits})
+    return out, where
+
 # -----------------------------------------------------------------------------------------------
 
 def deps_of(inv, a, fuel=12):
@@ -1035,6 +1324,10 @@ def offenders(inv):
         for c in o["writes"]:
             if c in inv["preserved"]:
                 out.append((o["name"], c, "a derived handle must inherit this component"))
+    for ob, attrs in sorted(inv.get("obs_writes", {}).items()):
+        for a in attrs:
+            ln, w = inv.get("obs_where", {}).get("%s/%s" % (ob, a), (0, ""))
+            out.append((ob, a, "an observer mutates in place an object it got from the handle (%s, line %s)" % (w, ln)))
     return out
 
 
@@ -1053,13 +1346,14 @@ def _op(o):
 
 
 def gallina(inv, name="gen_inv"):
-    return ("Definition %s : inventory :=\n  mk_inv\n   %s\n   %s\n   %s\n   %s\n   %s\n   %s.\n" % (
+    return ("Definition %s : inventory :=\n  mk_inv\n   %s\n   %s\n   %s\n   %s\n   %s\n   %s\n   %s.\n" % (
         name, _l(_s(m) for m in inv["memos"]),
         _l("(%s, %s)" % (_s(k), _l(_s(x) for x in v)) for k, v in sorted(inv["reads"].items())),
         _l(_s(g) for g in inv["ground"]),
         "[" + ";\n    ".join(_op(o) for o in inv["derivs"]) + "]",
         "[" + ";\n    ".join(_op(o) for o in inv["mutators"]) + "]",
-        _l(_s(p) for p in inv["preserved"])))
+        _l(_s(p) for p in inv["preserved"]),
+        _l("(%s, %s)" % (_s(k), _l(_s(x) for x in v)) for k, v in sorted(inv.get("obs_writes", {}).items()))))
 
 
 HEADER = """(* GENERATED by translators/handle2coq.py from fastparquet/api.py (class ParquetFile) and fastparquet/writer.py; never committed. *)
